@@ -57,6 +57,8 @@ def gen(rng, tier):
             c['family'] = 'slab'
             # both reader families accept a call without rows and columns for these formats
             c['noshape'] = c['fmt'] != 'height_pressure' and rng.random() < 0.25
+            if not c['noshape'] and c['fmt'] in ('height_pressure', 'temperature') and rng.random() < 0.35:
+                c['partial'] = rng.choice(['rows', 'cols'])     # only one of rows / columns given: the other is inferred
             if i % 15 in (2, 6) and len(c['flags']) >= 3:
                 # outside the property's domain, inside the model's: an irregular time axis (the record readers
                 # extrapolate the first step); only the record reader is compared with its Lean model here
@@ -73,6 +75,7 @@ def gen(rng, tier):
                 c['flags'] = fl
                 c['irregular'] = k
                 c['noshape'] = False
+                c.pop('partial', None)
         out.append(c)
     return out
 
